@@ -294,7 +294,8 @@ def describe(v):
     if v.get('exc_type'):
         parts.append('%s at %s' % (v['exc_type'], v.get('frame', '?')))
     if 'witness' in v:
-        parts.append('input=%s' % json.dumps(v['witness'], default=str))
+        w = json.dumps(v['witness'], default=str)
+        parts.append('input=%s' % (w if len(w) <= 300 else w[:120] + '… (%d characters, full value in the replay file)' % len(w)))
     if v.get('detail'):
         parts.append(str(v['detail']))
     return ' '.join(p for p in parts if p)
@@ -325,6 +326,9 @@ def sym_input(E, unit, name='s'):
             cs[p] = c
         return E.SStr(cs), chars
     x, chars = E.symstr(unit['L'], name, lo, hi)
+    if unit.get('repeat'):
+        # very long text: the L symbolic characters repeated (length L * repeat); same variables at every repetition
+        return E.SStr(list(chars) * unit['repeat']), chars
     if unit.get('shape') in ('list', 'tuple'):
         # a sequence of one-character strings: clean() joins them, so this is a real path into the validators
         seq = [E.SStr([c]) for c in chars]
